@@ -11,7 +11,8 @@ EXPLANATION = (
     "(2) peer-supplied total/seq are range-checked before use: rule P over common/fragment.rs with the fragment_header_guard and mtu_guard "
     "anchors; (3) the frame id counter is advanced with wrapping arithmetic; (4) expiry is wired: Fragments::timer is called from the "
     "task that calls reassemble, and removes from the queue every id it pops from the timer list. The permutation/duplication law of the "
-    "bitmap algebra is NOT decided by this family.")
+    "bitmap algebra is NOT decided by this family."
+    ' timer() examines the expiry list on every call (no early return before it).')
 RULE_TEXT = "instances = header fields, panic edges in fragment.rs, counter update, timer wiring"
 TRUSTED = ["bytes::Buf get/put semantics"]
 NOT_DECIDED = ["that any permutation/duplication of the fragment multiset reassembles to exactly the original once (a property of histories; "
